@@ -8,7 +8,10 @@
 //
 // ops (one scenario per line; every op is self-contained, so any sub-sequence of a case replays):
 //
-//	dial base=<id|none> der=<tokens|-> n=<k> tr=<same|new> fresh=<0|1> faults=<sched|-> srv=<cfg> seed=<s> [sni=<l1>.<l2>…]
+//	dial base=<id|none> der=<tokens|-> n=<k> tr=<same|new> fresh=<0|1> faults=<sched|-> srv=<cfg> seed=<s> [sni=<l1>.<l2>…] [stls=<def|hrr>] [pause=<ms>]
+//	  (stls=hrr: the server's TLS stack only accepts P-384, a group no client sends a key share for, so it answers the
+//	   ClientHello with a HelloRetryRequest and the client has to send a SECOND ClientHello on the Initial CRYPTO stream;
+//	   pause=<ms>: after the echo the connection is left unused for that long, then a second echo follows)
 //	  (sni: the length of the server name dial i asks for, 0 = "localhost": a client talks to more than one host, so the
 //	   ClientHello — and with it everything laid out relative to its length — differs from dial to dial)
 //	  => S[ <spec facts> ] D[ i=1 <first-flight facts> out=<outcome> … ] S[ … ] D[ i=2 … ] S[ … ] …
@@ -99,7 +102,17 @@ func (rn *runner) Exec(op string) string {
 	if os.Getenv("DIAL_INPROC") == "1" {
 		return execOp(op)
 	}
-	ctx, cancel := context.WithTimeout(context.Background(), 20*time.Second)
+	// 20 s of real time for an op that takes 30 ms; an op that does not make it gets one more chance with 90 s (a
+	// machine busy with other builds can stall a process that long; a livelock stays one)
+	r := execChild(op, 20*time.Second)
+	if r == "hang-real" {
+		r = execChild(op, 90*time.Second)
+	}
+	return r
+}
+
+func execChild(op string, limit time.Duration) string {
+	ctx, cancel := context.WithTimeout(context.Background(), limit)
 	defer cancel()
 	cmd := exec.CommandContext(ctx, os.Args[0], "-test.run", "^TestChild$", "-test.count=1", "-test.timeout", "0")
 	cmd.Env = append(os.Environ(), "DIAL_OP="+op, "GOMAXPROCS=2")
@@ -375,6 +388,7 @@ func specFacts(spec *quic.QUICSpec) string {
 type srvCfg struct {
 	conf  *quic.Config
 	retry bool
+	stls  *tls.Config // nil: e2e.ServerTLSConfig()
 }
 
 func serverConfig(id string) (srvCfg, bool) {
@@ -401,6 +415,20 @@ func serverConfig(id string) (srvCfg, bool) {
 		return srvCfg{conf: &quic.Config{Versions: []quic.Version{quic.Version2}}, retry: true}, true
 	}
 	return srvCfg{}, false
+}
+
+// serverTLS: the server's TLS configuration. "hrr": only P-384 is acceptable — no built-in spec and no plain client
+// sends a P-384 key share, all of them list the group, so every handshake goes through a HelloRetryRequest.
+func serverTLS(id string) (*tls.Config, bool) {
+	switch id {
+	case "", "def":
+		return e2e.ServerTLSConfig(), true
+	case "hrr":
+		c := e2e.ServerTLSConfig()
+		c.CurvePreferences = []tls.CurveID{tls.CurveP384}
+		return c, true
+	}
+	return nil, false
 }
 
 var srvNames = []string{"def", "retry", "smallwin", "bigwin", "nopmtud", "strm1", "dgram", "v1", "v2", "v2retry"}
@@ -652,6 +680,8 @@ type scen struct {
 	seed    uint64
 	baseTLS *tls.Config // the client's TLS config as e2e built it (server name "localhost")
 	sni     []int       // per dial: length of the server name to ask for (0 / missing: "localhost")
+	pause   time.Duration // after the echo: leave the connection unused for this long, then echo again
+	sidle   time.Duration // the server's own Config.MaxIdleTimeout (populated)
 }
 
 // sniName: a syntactically valid host name of exactly n bytes (n >= 3), labels of at most 16 letters.
@@ -713,7 +743,7 @@ func startScen(spec *quic.QUICSpec, plain bool, ccfg *quic.Config, faults []e2e.
 		cconf = ccfg.Clone()
 		cconf.Tracer = clog.tracer()
 	}
-	env, err := e2e.Start(e2e.Setup{Spec: spec, Faults: faults, ServerConf: sconf, ClientConf: cconf})
+	env, err := e2e.Start(e2e.Setup{Spec: spec, Faults: faults, ServerConf: sconf, ClientConf: cconf, ServerTLS: sc.stls})
 	if err != nil {
 		return nil, err
 	}
@@ -728,14 +758,21 @@ func startScen(spec *quic.QUICSpec, plain bool, ccfg *quic.Config, faults []e2e.
 		// Transport.VerifySourceAddress is read when the listener is created: re-listen with it set.
 		env.Listener.Close()
 		env.ServerTr.VerifySourceAddress = func(net.Addr) bool { return true }
-		ln, err := env.ServerTr.Listen(e2e.ServerTLSConfig(), sconf)
+		stls := sc.stls
+		if stls == nil {
+			stls = e2e.ServerTLSConfig()
+		}
+		ln, err := env.ServerTr.Listen(stls, sconf)
 		if err != nil {
 			env.Close()
 			return nil, err
 		}
 		env.Listener = ln
 	}
-	s := &scen{env: env, slog: slog, clog: clog, srvData: make(chan string, 16), seed: seed}
+	s := &scen{env: env, slog: slog, clog: clog, srvData: make(chan string, 16), seed: seed, sidle: sconf.MaxIdleTimeout}
+	if s.sidle == 0 {
+		s.sidle = protocol.DefaultIdleTimeout
+	}
 	s.wg.Add(1)
 	go func() {
 		defer s.wg.Done()
@@ -747,23 +784,34 @@ func startScen(spec *quic.QUICSpec, plain bool, ccfg *quic.Config, faults []e2e.
 			s.wg.Add(1)
 			go func() {
 				defer s.wg.Done()
+				// the first stream within 90 s; after it, every further stream the client opens on this connection is
+				// echoed too (the connection may be left unused for a while in between), until the connection ends
 				ctx, cancel := context.WithTimeout(context.Background(), 90*time.Second)
 				defer cancel()
-				st, err := c.AcceptStream(ctx)
-				if err != nil {
-					return
-				}
-				st.SetDeadline(time.Now().Add(90 * time.Second))
-				b, rerr := io.ReadAll(st)
-				r := fmt.Sprintf("%d:%s", len(b), h8(b))
-				if rerr != nil {
-					r += ":" + canonErr(rerr)
-				}
-				s.srvData <- r
-				st.Write(reply(b))
-				st.Close()
-				if s.fan && rerr == nil {
-					s.fanOut(c)
+				for k := 0; ; k++ {
+					actx := ctx
+					if k > 0 {
+						actx = c.Context()
+					}
+					st, err := c.AcceptStream(actx)
+					if err != nil {
+						break
+					}
+					st.SetDeadline(time.Now().Add(90 * time.Second))
+					b, rerr := io.ReadAll(st)
+					r := fmt.Sprintf("%d:%s", len(b), h8(b))
+					if rerr != nil {
+						r += ":" + canonErr(rerr)
+					}
+					select {
+					case s.srvData <- r:
+					default:
+					}
+					st.Write(reply(b))
+					st.Close()
+					if k == 0 && s.fan && rerr == nil {
+						s.fanOut(c)
+					}
 				}
 				// keep the connection until the client closes it (or the scenario ends)
 				<-c.Context().Done()
@@ -1009,11 +1057,21 @@ func (s *scen) oneDial(i int) string {
 	if err == nil {
 		cs := conn.ConnectionState()
 		extra = fmt.Sprintf(" v=%d alpn=%s", versionNo(cs.Version), cs.TLS.NegotiatedProtocol)
-		up, down := s.moveData(conn, i)
+		up, down := s.moveData(conn, i, 'c')
 		extra += " up=" + up + " down=" + down
 		if s.fan && strings.HasPrefix(up, "10240:") && strings.HasPrefix(down, "10240:") {
 			mu, mb := streamLimits(env.ClientUTr.QUICSpec)
 			extra += " fan=" + s.fanIn(conn, mu, mb)
+		}
+		if s.pause > 0 {
+			// the connection is left unused (nothing to send on either side), then used again
+			time.Sleep(s.pause)
+			up2, down2 := s.moveData(conn, i, 'd')
+			e2 := "dead"
+			if echoOK(up2) && echoOK(down2) {
+				e2 = "ok"
+			}
+			extra += fmt.Sprintf(" cidle=%d sidle=%d e2=%s e2d=%s/%s", clientIdleAdv(env), s.sidle.Milliseconds(), e2, up2, down2)
 		}
 		conn.CloseWithError(0, "")
 		time.Sleep(300 * time.Millisecond) // let the close reach the server before the next dial
@@ -1030,7 +1088,38 @@ func (s *scen) oneDial(i int) string {
 			attempts = []string{}
 		}
 	}
-	return fmt.Sprintf("D[ i=%d %s %s out=%s%s ]", i, firstFlightFacts(env, c2sFrom, s2cFrom, attempts), s.paramFacts(srvFrom, cliFrom, dcids), out, extra)
+	return fmt.Sprintf("D[ i=%d %s %s %s out=%s%s ]", i, firstFlightFacts(env, c2sFrom, s2cFrom, attempts), s.paramFacts(srvFrom, cliFrom, dcids), cryptoFacts(env, c2sFrom), out, extra)
+}
+
+// echoOK: "<10240>:<hash expected>:<the same hash>"
+func echoOK(x string) bool {
+	f := strings.Split(x, ":")
+	return len(f) == 3 && f[0] == strconv.Itoa(dataLen) && f[1] == f[2]
+}
+
+// clientIdleAdv: the max_idle_timeout (ms) the client puts on the wire: the spec's entry unless suppressed (-1: not
+// advertised), without a spec the populated Config's value.
+func clientIdleAdv(env *e2e.Env) int64 {
+	if env.ClientUTr == nil || env.ClientUTr.QUICSpec == nil {
+		if env.ClientCfg != nil && env.ClientCfg.MaxIdleTimeout != 0 {
+			return env.ClientCfg.MaxIdleTimeout.Milliseconds()
+		}
+		return protocol.DefaultIdleTimeout.Milliseconds()
+	}
+	spec := env.ClientUTr.QUICSpec
+	for _, id := range spec.SuppressTransportParameters {
+		if id == 0x01 {
+			return -1
+		}
+	}
+	if q := qtpExt(spec); q != nil {
+		for _, p := range q.TransportParameters {
+			if v, ok := p.(tls.MaxIdleTimeout); ok {
+				return int64(v)
+			}
+		}
+	}
+	return -1
 }
 
 func versionNo(v quic.Version) int {
@@ -1043,10 +1132,10 @@ func versionNo(v quic.Version) int {
 	return 0
 }
 
-func (s *scen) moveData(conn *quic.Conn, i int) (up, down string) {
+func (s *scen) moveData(conn *quic.Conn, i int, tag byte) (up, down string) {
 	ctx, cancel := context.WithTimeout(context.Background(), 60*time.Second)
 	defer cancel()
-	sent := pattern(s.seed+uint64(i)*7919, 'c') // different bytes for every dial of the scenario
+	sent := pattern(s.seed+uint64(i)*7919, tag) // different bytes for every dial (and every echo) of the scenario
 	want := reply(sent)
 	up, down = fmt.Sprintf("0:%s:-", h8(sent)), fmt.Sprintf("0:%s:-", h8(want))
 	st, err := conn.OpenStreamSync(ctx)
@@ -1108,8 +1197,19 @@ func execOp(op string) string {
 	seed, _ := strconv.ParseUint(a["seed"], 10, 64)
 	faults, okf := parseFaults(a["faults"])
 	sc, oks := serverConfig(a["srv"])
-	if !okf || !oks {
+	stls, okt := serverTLS(a["stls"])
+	if !okf || !oks || !okt {
 		return "skip"
+	}
+	if a["stls"] != "" && a["stls"] != "def" {
+		sc.stls = stls
+	}
+	pause := 0
+	if v := a["pause"]; v != "" {
+		var err error
+		if pause, err = strconv.Atoi(v); err != nil || pause < 0 || pause > 60000 {
+			return "skip"
+		}
 	}
 	switch f[0] {
 	case "dial":
@@ -1159,6 +1259,7 @@ func execOp(op string) string {
 					if s != nil {
 						s.fan = true
 						s.sni = sni
+						s.pause = time.Duration(pause) * time.Millisecond
 					}
 					if err != nil {
 						res = append(res, "E:setup")
@@ -1291,6 +1392,99 @@ func cryptoOf(payload []byte, buf map[int]byte) (nframes int, ok bool) {
 		}
 	}
 	return nframes, true
+}
+
+// cryptoFacts: the client's Initial CRYPTO stream(s) of one dial as they went onto the wire (every datagram the client
+// handed to the network, lost or not). Initial packets are grouped by the connection ID their keys derive from (one
+// group per connection attempt; a Retry starts a new group); within a group the CRYPTO frames must describe ONE byte
+// stream: a stream offset never carries two different bytes ("conflict"), and the stream of the last group has no hole
+// ("gap": judged only when the dial succeeded; the last group = the last one that carries CRYPTO data). nch: TLS handshake messages of type ClientHello in the last group's
+// stream (2 after a HelloRetryRequest), clen: its length.
+func cryptoFacts(env *e2e.Env, c2sFrom int) string {
+	c2s := env.Net.Datagrams(e2e.ToServer)
+	type group struct {
+		key string
+		buf map[int]byte
+	}
+	var groups []*group
+	var keys [][]byte // candidate key connection IDs, in order of appearance
+	state, undec := "ok", 0
+	for _, d := range c2s[min(c2sFrom, len(c2s)):] {
+		lh := parseLong(d.Data)
+		if !lh.ok || !lh.initial {
+			continue
+		}
+		known := false
+		for _, k := range keys {
+			known = known || string(k) == string(lh.dcid)
+		}
+		if !known {
+			keys = append(keys, append([]byte(nil), lh.dcid...))
+		}
+		var pl []byte
+		var g *group
+		// the newest key first: an attempt's later packets carry the server's connection ID, its keys stay
+		for j := len(keys) - 1; j >= 0 && pl == nil; j-- {
+			if p, _, ok := openInitial(d.Data, keys[j]); ok {
+				pl = p
+				for _, x := range groups {
+					if x.key == string(keys[j]) {
+						g = x
+					}
+				}
+				if g == nil {
+					g = &group{key: string(keys[j]), buf: map[int]byte{}}
+					groups = append(groups, g)
+				}
+			}
+		}
+		if pl == nil {
+			undec++
+			continue
+		}
+		one := map[int]byte{}
+		if _, ok := cryptoOf(pl, one); !ok {
+			undec++
+			continue
+		}
+		if os.Getenv("DIAL_DEBUG_CRY") != "" {
+			fmt.Fprintf(os.Stderr, "cry: at=%v len=%d v=%x dcid=%x scid=%x key=%x crypto=%d\n", d.At, len(d.Data), lh.version, lh.dcid, lh.scid, g.key, len(one))
+		}
+		for off, b := range one {
+			if old, had := g.buf[off]; had && old != b && state == "ok" {
+				state = fmt.Sprintf("conflict@%d", off)
+			}
+			g.buf[off] = b
+		}
+	}
+	nch, clen := 0, 0
+	// the last group that carries CRYPTO data at all: a closed connection of an earlier attempt (or dial) may still
+	// answer a late datagram with a CONNECTION_CLOSE in an Initial packet of its own
+	for len(groups) > 0 && len(groups[len(groups)-1].buf) == 0 {
+		groups = groups[:len(groups)-1]
+	}
+	if len(groups) > 0 {
+		buf := groups[len(groups)-1].buf
+		var stream []byte
+		for {
+			b, ok := buf[len(stream)]
+			if !ok {
+				break
+			}
+			stream = append(stream, b)
+		}
+		clen = len(stream)
+		if len(buf) != len(stream) && state == "ok" {
+			state = fmt.Sprintf("gap@%d", len(stream))
+		}
+		for p := 0; p+4 <= len(stream); {
+			if stream[p] == 1 {
+				nch++
+			}
+			p += 4 + (int(stream[p+1])<<16 | int(stream[p+2])<<8 | int(stream[p+3]))
+		}
+	}
+	return fmt.Sprintf("cry=%s nch=%d clen=%d undec=%d", state, nch, clen, undec)
 }
 
 // maskClientHello zeroes the fields of a TLS 1.3 ClientHello that are fresh secrets of every connection by design
@@ -1465,7 +1659,7 @@ func genDer(r *vh.Rand, base string) string {
 		case 5:
 			add("shuf")
 		case 6:
-			add("supp:" + []string{"1", "27", "32", "12583", "27.1", "14"}[r.Intn(6)])
+			add("supp:" + []string{"1", "27", "32", "12583", "27.1", "14", "3", "11", "1.3.11"}[r.Intn(9)])
 		case 7:
 			add(fmt.Sprintf("rot:%d", 1+r.Intn(9)))
 		case 8:
@@ -1498,6 +1692,28 @@ func genSNI(r *vh.Rand, n int, pct int) string {
 	return " sni=" + strings.Join(out, ".")
 }
 
+// genReset: scenarios in which state has to survive a restart inside one connection or a quiet period after it:
+// " stls=hrr" (the server answers the first ClientHello with a HelloRetryRequest: a second ClientHello follows on the
+// same Initial CRYPTO stream — on top of Retry / Version Negotiation / loss when the op has them) and " pause=<ms>"
+// (the connection is left unused, then used again; `der` gets max_idle_timeout suppressed in half of these).
+func genReset(r *vh.Rand, der *string, hrrPct, pausePct int) string {
+	out := ""
+	if r.Chance(hrrPct) {
+		out += " stls=hrr"
+	}
+	if r.Chance(pausePct) {
+		out += fmt.Sprintf(" pause=%d", []int{400, 1500, 2500, 12000, 26000}[r.Pick(30, 15, 15, 15, 25)])
+		if der != nil && r.Chance(50) && !strings.Contains(*der, "supp:") && !strings.Contains(*der, "iscidx") {
+			if *der == "-" {
+				*der = "supp:1"
+			} else {
+				*der += ",supp:1"
+			}
+		}
+	}
+	return out
+}
+
 func (rn *runner) GenOp(r *vh.Rand, i int) string {
 	seed := r.U64() >> 16
 	srv := srvNames[r.Pick(36, 10, 7, 5, 7, 5, 6, 6, 12, 6)]
@@ -1506,7 +1722,7 @@ func (rn *runner) GenOp(r *vh.Rand, i int) string {
 		if ccfg == "v2" && srv == "v1" {
 			srv = "def" // no common version: not a scenario of this property
 		}
-		return fmt.Sprintf("cmp ccfg=%s faults=%s srv=%s seed=%d", ccfg, genFaults(r), srv, seed)
+		return fmt.Sprintf("cmp ccfg=%s faults=%s srv=%s seed=%d%s", ccfg, genFaults(r), srv, seed, genReset(r, nil, 20, 0))
 	}
 	base := baseNames[r.Pick(12, 10, 10, 12, 10, 12, 10, 3, 3, 3)]
 	if r.Chance(14) {
@@ -1526,13 +1742,18 @@ func (rn *runner) GenOp(r *vh.Rand, i int) string {
 		// one plan value for 1..3 dials; mostly to hosts whose names differ in length, so that the flight has to be laid
 		// out anew for a ClientHello of another length
 		fn := 1 + r.Pick(30, 40, 30)
-		return fmt.Sprintf("dial base=%s der=%s n=%d tr=%s fresh=0 faults=%s srv=%s seed=%d%s", base, der, fn, []string{"same", "new"}[r.Intn(2)], losses[r.Intn(len(losses))], fsrv, seed, genSNI(r, fn, 75))
+		tail := genSNI(r, fn, 75) + genReset(r, nil, 35, 10)
+		return fmt.Sprintf("dial base=%s der=%s n=%d tr=%s fresh=0 faults=%s srv=%s seed=%d%s", base, der, fn, []string{"same", "new"}[r.Intn(2)], losses[r.Intn(len(losses))], fsrv, seed, tail)
 	}
 	n := 1 + r.Pick(40, 35, 25)
 	tr := []string{"same", "new"}[r.Pick(60, 40)]
 	fresh := r.Pick(70, 30)
 	if r.Chance(4) {
-		return fmt.Sprintf("dial base=none der=- n=%d tr=%s fresh=0 faults=%s srv=%s seed=%d", n, tr, genFaults(r), srv, seed)
+		return fmt.Sprintf("dial base=none der=- n=%d tr=%s fresh=0 faults=%s srv=%s seed=%d%s", n, tr, genFaults(r), srv, seed, genReset(r, nil, 20, 20))
 	}
-	return fmt.Sprintf("dial base=%s der=%s n=%d tr=%s fresh=%d faults=%s srv=%s seed=%d%s", base, genDer(r, base), n, tr, fresh, genFaults(r), srv, seed, genSNI(r, n, 30))
+	der := genDer(r, base)
+	flt := genFaults(r)
+	tail := genSNI(r, n, 30)
+	tail += genReset(r, &der, 18, 22)
+	return fmt.Sprintf("dial base=%s der=%s n=%d tr=%s fresh=%d faults=%s srv=%s seed=%d%s", base, der, n, tr, fresh, flt, srv, seed, tail)
 }
